@@ -35,6 +35,8 @@ META = {
 
 INVS = ["CountMatches", "DispatchOrder", "StatusMatches", "OneStreamId", "ErrorMessageNonEmpty", "ErrorMessageFull"]
 MSGS = ["noargs", "empty", "ascii", "unicode", "long", "multiline"]
+HTTP_CFG = ["sticky", "auth", "hook"]
+SOCK_CFG = ["unix", "hook"]
 COLD = ["nocache", "two", "evict"]     # HTTP deployments in which continuations miss the call-state cache
 CLASSES_Q = ["ValueError"]
 CLASSES_T = ["ValueError", "KeyError", "RuntimeError", "UserStrError", "SessionLostError"]
@@ -95,7 +97,8 @@ def work(jobs: list[dict]) -> list[dict]:
         A.set_level(logging.DEBUG if job["debug"] else logging.INFO)
         r = A.run_history(job["tr"], job["script"], job["cls"], job["text"], job["argc"], worlds, deploy=job["deploy"])
         if r["hung"] and job["tr"] == "sock":
-            r = A.run_history(job["tr"], job["script"], job["cls"], job["text"], job["argc"], worlds, timeout=25.0)
+            r = A.run_history(job["tr"], job["script"], job["cls"], job["text"], job["argc"], worlds, timeout=25.0,
+                              deploy=job["deploy"])
         recs, det = A.project(r["records"], r["errs"])
         other = None
         if r.get("other"):
@@ -168,8 +171,14 @@ def run(ctx: Ctx) -> None:
                 # HTTP deployments: besides the warm single worker, histories with a stream call are replayed where a
                 # continuation / exchange turn / cancel cannot find the call in the worker's call-state cache
                 deploys = ["warm"]
-                if h["tr"] == "http" and any(c["k"] in ("p", "ph", "x") for c in h["script"]):
+                if h["tr"] == "http" and any(c["k"] in ("p", "ph", "p0", "x") for c in h["script"]):
                     deploys += [COLD[(i + rep) % len(COLD)]] if quick else COLD
+                # configuration the record content depends on (all HTTP histories): sticky middleware, an authenticated
+                # caller with claims, a registered dispatch hook that raises; sockets: unix socket pair, raising hook
+                if h["tr"] == "http":
+                    deploys += [HTTP_CFG[(i + rep) % len(HTTP_CFG)]] if quick else HTTP_CFG
+                elif h["tr"] == "sock":
+                    deploys += [SOCK_CFG[(i + rep) % len(SOCK_CFG)]] if (quick or len(h["script"]) == 2) else SOCK_CFG
                 for dep in deploys:
                     jobs.append({"tr": h["tr"], "msg": h["msg"], "script": h["script"], "cls": cls, "text": text,
                                  "argc": argc, "deploy": dep, "debug": (i + rep + len(jobs)) % 2 == 1,
@@ -218,8 +227,11 @@ def run(ctx: Ctx) -> None:
                 if cl == "RecordsAlign":
                     ctx.drift.append({"records_do_not_align": True, **det})
                     continue
-                ctx.violation(cl, {"tr": "http", "deploy": "evict", "msg": "none", "text_len_class": "none",
-                                   "kinds": "x(interleaved)"}, det)
+                xsig = {"tr": "http", "deploy": "evict", "msg": "none", "text_len_class": "none", "kinds": "x(interleaved)"}
+                if cl == "SchemaValidCapped":
+                    probs = sorted({q.split(": ", 1)[-1] for d in o["details"] for q in d.get("capped_schema_problems", [])})
+                    xsig["cprob"] = " | ".join(probs)[:200]
+                ctx.violation(cl, xsig, det)
         for job, res, v in zip(jobs, results, verdicts):
             sig = {"tr": job["tr"], "deploy": job["deploy"], "msg": job["msg"], "text_len_class": _len_class(job, res),
                    "kinds": "+".join(c["k"] for c in job["script"])}
@@ -242,6 +254,10 @@ def run(ctx: Ctx) -> None:
             for cl in bad:
                 if cl == "RecordsAlign":
                     ctx.drift.append({"records_do_not_align": True, **det})
+                    continue
+                if cl == "SchemaValidCapped":
+                    probs = sorted({q.split(": ", 1)[-1] for d in res["details"] for q in d.get("capped_schema_problems", [])})
+                    ctx.violation(cl, dict(sig, cprob=" | ".join(probs)[:200]), det)
                     continue
                 ctx.violation(cl, sig, det)
         ctx.extra["histories_replayed"] = len(jobs)
